@@ -423,6 +423,61 @@ check_value(int t, uint64_t bits, bool sweep)
     return ok ? len : 0;
 }
 
+/* The same oracle for the big sweeps, reduced to length query, buffer encoder,
+ * buffer decoder and octet-source decoder on pooled exact-size blocks and
+ * without calls into intercepted libc functions.  Returns the length, or 0
+ * when anything is off; the caller then runs check_value() on the value to
+ * get the precise failing sentence recorded. */
+static inline size_t
+fast_value(int t, uint64_t bits)
+{
+    unsigned char want[10];
+    const size_t len = ref_enc(bits, want);
+    const size_t maxoct = t_max(t);
+    if (len != ref_len(bits) || lib_length(t, bits) != len || len > maxoct)
+        return 0;
+    unsigned char *enc = encblk[t];
+    for (size_t i = 0; i < maxoct; ++i)
+        enc[i] = 0xa5;
+    ByteBuffer b = BYTE_BUFFER_EMPTY(enc, maxoct);
+    const int erc = lib_encode(t, &b, bits);
+    if (erc < 0 || (size_t)erc != len || b.used != len || b.offset != 0 || b.data != enc || b.size != maxoct)
+        return 0;
+    unsigned char *blk = pool[len];
+    for (size_t i = 0; i < len; ++i) {
+        if (enc[i] != want[i])
+            return 0;
+        blk[i] = enc[i];
+    }
+    ByteBuffer d = BYTE_BUFFER(blk, len);
+    uint64_t got;
+    const int drc = lib_decode(t, &d, &got);
+    if (drc < 0 || (size_t)drc != len || got != bits || d.offset != len)
+        return 0;
+    struct osrc os = { blk, len, 0 };
+    Source src = OCTET_SOURCE_INIT(osrc_get, &os);
+    const int src_rc = lib_from_source(t, &src, &got);
+    if (src_rc < 0 || (size_t)src_rc != len || got != bits || os.pos != len)
+        return 0;
+    mc_trans(4);
+    return len;
+}
+
+/* one value of a sweep, both signednesses; 0 after a (recorded) failure */
+static inline size_t
+sweep_value(int t0, uint64_t v)
+{
+    if (fast_value(t0, v) && fast_value(t0 + 1, v))
+        return ref_len(v);
+    size_t l = check_value(t0, v, true);
+    if (l)
+        l = check_value(t0 + 1, v, true);
+    if (l)
+        mc_fail("C14/roundtrip-buffer", "value 0x%llx failed the reduced round trip but not the full one",
+                (unsigned long long)v);
+    return 0;
+}
+
 static const char *const RT32[6] = { "rt32-failed", "rt32-len1", "rt32-len2", "rt32-len3", "rt32-len4", "rt32-len5" };
 static const char *const RT64[11] = { "rt64-failed", "rt64-len1", "rt64-len2", "rt64-len3", "rt64-len4",
                                       "rt64-len5", "rt64-len6", "rt64-len7", "rt64-len8", "rt64-len9",
@@ -554,9 +609,7 @@ sweep32(uint64_t base, uint64_t count)
         return;
     size_t maxl = 0;
     for (uint64_t v = base; v < base + count; ++v) {
-        size_t l = check_value(T_U32, v, true);
-        if (l)
-            l = check_value(T_S32, v, true);
+        const size_t l = sweep_value(T_U32, v);
         if (l == 0) {
             maxl = 0;
             break;
@@ -578,9 +631,7 @@ sweep64(unsigned sh, bool complement)
     size_t maxl = 0;
     for (uint64_t x = 1; x < lim; x += 2) {
         const uint64_t v = complement ? ~(x << sh) : (x << sh);
-        size_t l = check_value(T_U64, v, true);
-        if (l)
-            l = check_value(T_S64, v, true);
+        const size_t l = sweep_value(T_U64, v);
         if (l == 0) {
             maxl = 0;
             break;
@@ -603,11 +654,13 @@ one_string(const unsigned char *s, size_t n, size_t pre)
         mc_skip_case();
         return;
     }
-    char hex[3 * 12 + 1] = "";
-    for (size_t i = 0; i < n; ++i)
-        snprintf(hex + 3 * i, 4, "%02x ", s[i]);
-    if (n)
-        hex[3 * n - 1] = 0;
+    char hex[3 * 12 + 1];
+    hex[0] = 0;
+    for (size_t i = 0; i < n; ++i) {
+        hex[3 * i] = "0123456789abcdef"[s[i] >> 4];
+        hex[3 * i + 1] = "0123456789abcdef"[s[i] & 15];
+        hex[3 * i + 2] = i + 1 < n ? ' ' : 0;
+    }
     if (!mc_case("string pre=%zu len=%zu s=[%s]", pre, n, hex))
         return;
     /* the block: pre consumed octets (ff: continuation bits, in case a decoder
@@ -656,21 +709,25 @@ static void
 family_strings(const unsigned char *alpha, unsigned nalpha, size_t minlen, size_t maxlen, size_t pre)
 {
     unsigned char s[12];
-    unsigned digit[12];
     for (size_t n = minlen; n <= maxlen; ++n) {
         if (pre + n == 0)
             continue; /* a ByteBuffer cannot have size 0 */
-        memset(digit, 0, sizeof digit);
-        for (;;) {
-            /* most significant digit first: strings in lexicographic order */
-            for (size_t i = 0; i < n; ++i)
-                s[i] = alpha[digit[i]];
+        uint64_t total = 1;
+        for (size_t i = 0; i < n; ++i)
+            total *= nalpha;
+        /* the counter's digits, most significant first, index the alphabet:
+         * strings of one length in lexicographic order */
+        for (uint64_t c = 0; c < total; ++c) {
+            if (!mc_would_run()) {
+                mc_skip_case();
+                continue;
+            }
+            uint64_t r = c;
+            for (size_t i = n; i-- > 0;) {
+                s[i] = alpha[r % nalpha];
+                r /= nalpha;
+            }
             one_string(s, n, pre);
-            size_t k = n;
-            while (k > 0 && ++digit[k - 1] == nalpha)
-                digit[--k] = 0;
-            if (k == 0)
-                break;
         }
     }
 }
